@@ -440,6 +440,10 @@ fn parse_header(hd: &str) -> Option<Runner> {
     Some(Runner { mac: VerifMac::new(conf, max_power, gain), rng: HRng::new(seed, forced), last_tx: None, nwk: NWK_KEY, app: APP_KEY, region_name: w[2].to_string(), otaa_nonce: None })
 }
 
+pub fn parse_header_pub(hd: &str) -> Option<Runner> {
+    parse_header(hd)
+}
+
 fn dr_of(n: u8) -> lorawan_device::region::DR {
     lorawan_device::region::DR::from(n)
 }
@@ -489,7 +493,7 @@ impl Runner {
                 let creds = NetworkCredentials::new(AppEui::from([0x0a; 8]), DevEui::from([0x0b; 8]), AppKey::from(ROOT_KEY));
                 let (tx, nonce) = self.mac.join_otaa(&mut self.rng, creds);
                 self.otaa_nonce = Some(nonce);
-                let s = format!("join {} nonce={}", show_tx(&tx), nonce);
+                let s = format!("join {} nonce={} jr={}", show_tx(&tx), nonce, check_join_request(&tx.frame, nonce));
                 self.last_tx = Some(tx);
                 Some(s)
             }
@@ -529,17 +533,21 @@ impl Runner {
                     let (r, _buf) = self.mac.handle_rx(&bytes, snr, &rf);
                     show_resp(r)
                 };
+                let mut keys = String::new();
                 if was_otaa && resp == "JoinSuccess" {
                     // the session keys now in force are whatever the device derived
                     let s = self.mac.snapshot().session.unwrap();
                     self.nwk = s.nwkskey;
                     self.app = s.appskey;
+                    let n = self.otaa_nonce.unwrap_or(0);
+                    let ok = s.nwkskey == derive_key(0x01, n) && s.appskey == derive_key(0x02, n);
+                    keys = format!(" keys={}", if ok { "ok" } else { "BAD" });
                 }
                 let dl = match self.mac.take_downlink() {
                     Some(d) => format!("{}:{}", d.fport, hex(&d.data)),
                     None => "-".into(),
                 };
-                Some(format!("resp={} dl={}", resp, dl))
+                Some(format!("resp={} dl={}{}", resp, dl, keys))
             }
             ["timeout"] => Some(format!("resp={}", show_resp(self.mac.rx2_complete()))),
             ["adr", b] => {
@@ -551,9 +559,71 @@ impl Runner {
                 Some("ok".into())
             }
             ["snap"] => Some(show_snap(&self.mac.snapshot())),
+            ["delays"] => Some(format!(
+                "d={},{},{},{}",
+                self.mac.get_rx_delay(false, false),
+                self.mac.get_rx_delay(false, true),
+                self.mac.get_rx_delay(true, false),
+                self.mac.get_rx_delay(true, true)
+            )),
+            ["persist"] => {
+                // serialise the session, drop it, restore it from the document
+                match self.mac.get_session() {
+                    None => Some("persist=nosession".into()),
+                    Some(sess) => {
+                        let before = self.mac.snapshot();
+                        let doc = serde_json::to_string(sess).unwrap();
+                        match serde_json::from_str::<lorawan_device::mac::Session>(&doc) {
+                            Ok(restored) => {
+                                self.mac.set_session(restored);
+                                let after = self.mac.snapshot();
+                                Some(format!("persist=ok eq={}", b2s(before == after)))
+                            }
+                            Err(_) => Some("persist=ERR eq=0".into()),
+                        }
+                    }
+                }
+            }
             _ => None,
         }
     }
+}
+
+/// JoinRequest layout per LoRaWAN 1.0.x §6.2.4, checked without the repository's parser:
+/// MHDR 0x00 | AppEUI (LE) | DevEUI (LE) | DevNonce (LE) | MIC = CMAC(AppKey, MHDR..DevNonce)[0..4]
+pub fn check_join_request(frame: &[u8], nonce: u16) -> String {
+    use lorawan::keys::Crypto;
+    if frame.len() != 23 {
+        return format!("BAD:len{}", frame.len());
+    }
+    if frame[0] != 0x00 {
+        return "BAD:mhdr".into();
+    }
+    // `AppEui::from([0x0a; 8])` / `DevEui::from([0x0b; 8])`: identical bytes in either order
+    if frame[1..9] != [0x0a; 8] || frame[9..17] != [0x0b; 8] {
+        return "BAD:euis".into();
+    }
+    if frame[17..19] != nonce.to_le_bytes() {
+        return "BAD:nonce".into();
+    }
+    let mic = DefaultCrypto::new(&AES128(ROOT_KEY)).calculate_mic(&[], &frame[..19]);
+    if frame[19..23] != mic {
+        return "BAD:mic".into();
+    }
+    "ok".into()
+}
+
+/// LoRaWAN 1.0.x §6.2.5 session key derivation, straight from the formula:
+/// key = aes128_encrypt(AppKey, tag | JoinNonce | NetID | DevNonce | pad16)
+pub fn derive_key(tag: u8, nonce: u16) -> [u8; 16] {
+    use lorawan::keys::Crypto;
+    let mut b = [0u8; 16];
+    b[0] = tag;
+    b[1..4].copy_from_slice(&JOIN_NONCE);
+    b[4..7].copy_from_slice(&NET_ID);
+    b[7..9].copy_from_slice(&nonce.to_le_bytes());
+    DefaultCrypto::new(&AES128(ROOT_KEY)).encrypt_block(&mut b);
+    b
 }
 
 fn fallback_rf() -> RfConfig {
